@@ -184,9 +184,15 @@ def check(case):
 
 
 def _check_pooled(cases):
-    """Mean of the first-coordinate variance z-scores over many independent cases ~ N(0, 1/T)."""
+    """Mean of the first-coordinate variance z-scores over many independent cases (distinct seeds) ~ N(0, 1/T)."""
     zs = []
+    seen_seeds = set()
     for case in cases:
+        # independence across cases is what makes the pooled statistic N(0,1): two cases that share a random_state are
+        # driven by the same underlying normal draws, so only the first case of every seed value enters the pool
+        if case["seed"] in seen_seeds:
+            continue
+        seen_seeds.add(case["seed"])
         mean, cov = _law_of(case)
         p = len(mean)
         live = [i for i in range(p) if cov[i][i] != 0]
@@ -237,7 +243,7 @@ def law_case(draw, shape_only=False):
             case["dtypes"] = {}
         p = len(case["W"])
     case["n"] = draw(st.sampled_from([0, 1, 3])) if shape_only else N_LAW
-    case["seed"] = draw(st.sampled_from([0, 1]) | st.integers(0, 2 ** 32 - 1))
+    case["seed"] = draw(st.one_of(st.integers(2, 2 ** 32 - 1), st.integers(2, 2 ** 32 - 1), st.integers(1000, 2 ** 31), st.sampled_from([0, 1])))
     case["proj"] = [[draw(st.integers(-2, 2)) for _ in range(p)] for _ in range(2)]
     case["sub"] = "shape" if shape_only else "law"
     return case
